@@ -1,6 +1,6 @@
 //! C01–C05: counting, partial counts, SAT, per-feature table, core/dead.
 use crate::common::*;
-use crate::gen::GenFile;
+use crate::gen::{Fmt, GenFile};
 use crate::rng::Rng;
 use crate::space::*;
 use crate::tt::TT;
@@ -343,6 +343,35 @@ pub fn c04(a: &Args) {
             }
         }
     });
+    // models whose counts exceed the f64 range (more than 1024 unmentioned features): the ratio is still card / total
+    {
+        let mut picked: Vec<(GenFile, TT)> = Vec::new();
+        let mut r3 = rng.fork();
+        let cfg2 = space_cfg(a, false);
+        for_each_model(&cfg2, &mut r3, |file, tt| {
+            if picked.len() < (if a.thorough() { 40 } else { 8 }) && matches!(file.fmt, Fmt::D4) && tt.count() > 0 && nontrivial(file, tt) && file.n >= 2 { picked.push((file.clone(), tt.clone())); }
+        });
+        for (file, tt) in picked {
+            for big in [1030u32, 1100, 2100] {
+                let lines = file.lines.clone();
+                let Ok(mut d) = guarded(move || ddnnife::parser::distribute_building(lines, Some(big), None)) else { out.fail("load-panic", &file.text(), &format!("-t {big}"), "panic", "a model"); continue };
+                out.eval(Some(format!("{}|-t {big}", file.text())));
+                out.count("huge_models", 1);
+                let rows: Result<Vec<(i32, BigInt, f64)>, String> = guarded(|| d.card_of_each_feature().collect());
+                let Ok(rows) = rows else { out.fail("card_of_each_feature", &file.text(), &format!("table -t {big}"), "panic", "a table"); continue };
+                if rows.len() != big as usize { out.fail("rows", &file.text(), &format!("table -t {big}"), &rows.len().to_string(), &big.to_string()); continue; }
+                let total = tt.count();
+                let scale = BigInt::from(1) << ((big - file.n) as usize);
+                for f in (1..=file.n).chain([file.n + 1, big]) {
+                    let (v, card, ratio) = &rows[f as usize - 1];
+                    let (want_card, exact) = if f <= file.n { let w = tt.count_with(&[f as i32]); (BigInt::from(w) * &scale, w as f64 / total as f64) } else { (BigInt::from(total) * &scale / 2, 0.5) };
+                    if *v != f as i32 { out.fail("row-order", &file.text(), &format!("table -t {big}"), &v.to_string(), &f.to_string()); }
+                    if *card != want_card { out.fail("cardinality", &file.text(), &format!("feature {f} -t {big}"), &format!("{} bits", card.bits()), &format!("{} bits", want_card.bits())); }
+                    if !((ratio - exact).abs() <= 1e-12) { out.fail("ratio", &file.text(), &format!("feature {f} -t {big}"), &ratio.to_string(), &exact.to_string()); }
+                }
+            }
+        }
+    }
     // CSV writer and corpus
     let tmp = format!("{}/fcs.csv", a.out);
     for (path, tf) in corpus(a.thorough()) {
